@@ -1,5 +1,7 @@
 /* C11 -- base64url encode/decode: exhaustive small domains against ref_b64. */
 #include "vf.h"
+#include <openssl/hmac.h>
+#include <openssl/evp.h>
 #include "ref_b64.h"
 #include <jwt.h>
 #include <jansson.h>
@@ -293,6 +295,54 @@ groups:;
 			jwks_free(set);
 			if (vf_alloc_live() != 0)
 				vf_violation("leak", "live blocks after free: %ld", vf_alloc_live());
+			flush_counts();
+		}
+	}
+	/* 8. through the public API: the signature segment of an HS256 token, which is compared as text rather than decoded.
+	 * Whatever is appended to the valid MAC text -- alphabet characters, foreign bytes, high-bit bytes; 1 .. 1024 of
+	 * them, the multiples of 256 included -- the token is refused */
+	{
+		unsigned char key[32], mac[64];
+		unsigned int ml = 0;
+		char ktxt[64], doc[160], htxt[64], ptxt[64], mtxt[96], input[160];
+		for (int i = 0; i < 32; i++)
+			key[i] = (unsigned char)(i * 7 + 3);
+		ref_b64_encode(key, 32, ktxt);
+		snprintf(doc, sizeof doc, "{\"kty\":\"oct\",\"k\":\"%s\"}", ktxt);
+		ref_b64_encode((const unsigned char *)"{\"alg\":\"HS256\"}", 15, htxt);
+		ref_b64_encode((const unsigned char *)"{\"sub\":\"x\"}", 11, ptxt);
+		snprintf(input, sizeof input, "%s.%s", htxt, ptxt);
+		HMAC(EVP_sha256(), key, 32, (const unsigned char *)input, strlen(input), mac, &ml);
+		ref_b64_encode(mac, ml, mtxt);
+		static const int lens[] = { 0, 1, 2, 3, 4, 43, 255, 256, 257, 511, 512, 513, 768, 1024 };
+		static const unsigned char fills[] = { 'A', '-', '!', '=', ' ', 0x7f, 0x80, 0xc1, 0xff };
+		for (unsigned f = 0; f < sizeof fills; f++) {
+			if (!vf_case("public API: HS256 token whose signature text is followed by 0..1024 bytes %#04x", fills[f]))
+				continue;
+			jwk_set_t *set = jwks_create(doc);
+			jwt_checker_t *c = jwt_checker_new();
+			jwt_checker_setkey(c, JWT_ALG_HS256, jwks_item_get(set, 0));
+			for (unsigned k = 0; k < sizeof lens / sizeof *lens; k++) {
+				char *tok = malloc(strlen(input) + strlen(mtxt) + lens[k] + 4);
+				int o = sprintf(tok, "%s.%s", input, mtxt);
+				memset(tok + o, fills[f], lens[k]);
+				tok[o + lens[k]] = 0;
+				int r = jwt_checker_verify(c, tok);
+				n_eval++;
+				if (lens[k] == 0) {
+					if (r)
+						vf_violation("valid-token-rejected", "the reference HS256 token is rejected: %s", jwt_checker_error_msg(c));
+					else
+						n_nontriv++;
+				} else if (r == 0) {
+					n_accept++;
+					vf_violation("accepts-foreign", "HS256 token accepted with %d byte(s) %#04x after its signature text", lens[k], fills[f]);
+				} else
+					n_reject++;
+				free(tok);
+			}
+			jwt_checker_free(c);
+			jwks_free(set);
 			flush_counts();
 		}
 	}
